@@ -126,7 +126,7 @@ func smallPat(t *rapid.T, depth int) *ref.Pat {
 			s = &ref.Pat{K: "grp", Subs: []*ref.Pat{s}}
 		}
 		q := &ref.Pat{K: "q", Subs: []*ref.Pat{s}}
-		gen.Quant(q, rapid.IntRange(0, 2).Draw(t, "qf"), 0, 0)
+		gen.Quant(q, rapid.IntRange(0, 5).Draw(t, "qf"), rapid.IntRange(0, 2).Draw(t, "qn"), rapid.IntRange(0, 2).Draw(t, "qm"))
 		return q
 	}
 }
